@@ -26,6 +26,8 @@ def main():
         print("  ", k, v)
     for k, v in d["observed"].items():
         print("  observed", k, len(v))
+    if os.environ.get("LINES"):
+        json.dump({"seen": d["observed"].get("anchored_lines", []), "total": d["observed"].get("anchored_lines_total", [])}, open(os.environ["LINES"], "w"))
     print("maxima", d["maxima"])
     print("inconclusive", d["inconclusive"])
     for v in d["viol"]:
